@@ -82,6 +82,8 @@ pub struct Profile {
     /// build the initial structure through a history of its own (extra attributes deleted or
     /// renamed before the first update): hierarchies whose order results from deletions
     pub edited_initial_structure: bool,
+    /// a third of the histories start with ~130 add/delete cycles: ids of two LEB128 bytes
+    pub id_churn: bool,
 }
 
 #[derive(Clone, Debug)]
@@ -2106,6 +2108,14 @@ impl Gen {
         for dn in dnames.into_iter().take(n_dims) {
             let ordered = self.rng.chance(1, 2);
             ops.push(Op::AddDim { name: dn.to_string(), ordered });
+            if p.id_churn && ops.len() == 1 && self.rng.chance(1, 3) {
+                // push the attribute id counter past 128 (two LEB128 bytes) before anything real exists
+                let n = self.rng.range(126, 135);
+                for i in 0..n {
+                    ops.push(Op::AddAttr { dim: dn.to_string(), name: format!("z{i}"), hybrid: false, after: None });
+                    ops.push(Op::DelAttr { dim: dn.to_string(), name: format!("z{i}") });
+                }
+            }
             // keep |Ω| below a few hundred rights: four dimensions get at most three attributes each
             let cap = if n_dims >= 4 { p.max_attrs.min(3) } else { p.max_attrs };
             let n_attrs = self.rng.range(1, cap);
